@@ -305,7 +305,7 @@ func checkRealmDiscipline(r *Reporter, p *Prog) {
 		}
 		for _, c := range f.Calls(func(c *ast.CallExpr) bool {
 			se, ok := ast.Unparen(c.Fun).(*ast.SelectorExpr)
-			return ok && fieldSel(info, se.X, "m")
+			return ok && isSharedMap(f, info, c, se.X)
 		}) {
 			se := ast.Unparen(c.Fun).(*ast.SelectorExpr)
 			pt, _ := f.PointOf(c)
@@ -936,14 +936,14 @@ func checkBatchDisjoint(r *Reporter, p *Prog) {
 					return false
 				}
 				s2, ok := ast.Unparen(c.Fun).(*ast.SelectorExpr)
-				return ok && fieldSel(info, s2.X, "m") && (s2.Sel.Name == "set" || s2.Sel.Name == "delete")
+				return ok && isSharedMap(cf, info, c, s2.X) && (s2.Sel.Name == "set" || s2.Sel.Name == "delete")
 			}) {
 				if !cf.InLoopBody(l, pt) {
 					continue
 				}
 				inspectNoLit(cf.nodeAt(pt), func(m ast.Node) bool {
 					if c, ok := m.(*ast.CallExpr); ok {
-						if s2, ok := ast.Unparen(c.Fun).(*ast.SelectorExpr); ok && fieldSel(info, s2.X, "m") {
+						if s2, ok := ast.Unparen(c.Fun).(*ast.SelectorExpr); ok && isSharedMap(cf, info, c, s2.X) {
 							args := []string{}
 							for _, a := range c.Args {
 								args = append(args, cf.KeyAt(a, pt))
@@ -1092,6 +1092,8 @@ var _ = token.ADD
 // visitorsCopy: method fd hands a raw stored value to its paramIdx-th parameter (a function) as
 // argument argIdx. Every call of fd in the package must pass a function literal there, and inside
 // each literal the matching parameter is used only as an argument of a copying function.
+var visitorDepth int
+
 func visitorsCopy(p *Prog, info *types.Info, pkg string, fd *ast.FuncDecl, paramIdx, argIdx int) (string, bool) {
 	target, _ := info.Defs[fd.Name].(*types.Func)
 	if target == nil || fd.Name.IsExported() {
@@ -1115,6 +1117,23 @@ func visitorsCopy(p *Prog, info *types.Info, pkg string, fd *ast.FuncDecl, param
 			n++
 			if isNil(info, c.Args[paramIdx]) {
 				return true // no visitor at this call: nothing is handed out
+			}
+			// the caller forwards its own function parameter: its callers must pass a copying visitor
+			if po := objOfIdent(info, c.Args[paramIdx]); po != nil && !caller.Name.IsExported() && visitorDepth < 3 {
+				for ci, cp := range paramObjs(info, caller) {
+					if cp == po {
+						visitorDepth++
+						m2, ok2 := visitorsCopy(p, info, pkg, caller, ci, argIdx)
+						visitorDepth--
+						if !ok2 {
+							msg = m2
+							if msg == "" {
+								msg = p.posStr(c.Pos()) + ": the visitor is forwarded from " + caller.Name.Name + ", which is never called with one"
+							}
+						}
+						return true
+					}
+				}
 			}
 			// a literal, a named function of the package or a method value
 			cbs := callbacksIn(p, info, c.Args[paramIdx])
@@ -1240,4 +1259,40 @@ func iterationEndToEnd(p *Prog, mp, name string) bool {
 		fmt.Fprintf(os.Stderr, "e2e %s: filter %d/%v consume %d/%v sort %d/%v\n", name, nFilter, okFilter, nConsume, okConsume, nSort, okSort)
 	}
 	return nFilter >= 1 && nConsume >= 1 && nSort >= 1 && okFilter && okConsume && okSort
+}
+
+// isSharedMap: e denotes the shared map of a view - the field m, or a parameter of a spliced helper
+// that was handed that field.
+func isSharedMap(f *FuncCFG, info *types.Info, c *ast.CallExpr, e ast.Expr) bool {
+	if fieldSel(info, e, "m") {
+		return true
+	}
+	po := objOfIdent(info, e)
+	if po == nil || f == nil {
+		return false
+	}
+	// (the receiver of the shared map's own methods is the map itself, not a use of it by a view)
+	for _, hd := range f.P.decls().byFunc {
+		if hd.Recv != nil && f.P.decls().infoOf[hd] == info && recvObj(info, hd) == po {
+			return false
+		}
+	}
+	pt, ok := f.PointOf(c)
+	if !ok {
+		return false
+	}
+	for i := 0; i < 3; i++ {
+		arg, apt, found := f.paramArg(po, pt)
+		if !found {
+			return false
+		}
+		if fieldSel(info, arg, "m") {
+			return true
+		}
+		if po = objOfIdent(info, arg); po == nil {
+			return false
+		}
+		pt = apt
+	}
+	return false
 }
